@@ -32,6 +32,20 @@ FilteredRule(ev, n) ==
      \/ (ev.nodes[n].red /\ ~ev.showRed)
      \/ (OCat(ev, n) # {} /\ OCat(ev, n) \cap Allowed(ev) = {})
 
+(* DiffTree!Sup, soundness direction (suppression_categorization_visitor): a node carries SUPPRESSED / PRIVATE only if a             *)
+(* specification matched it (visit_begin: the mark is in its *local* category), or every changed child carries the mark (visit_end),  *)
+(* or it is a typedef over a marked underlying type, or a function whose function type was matched -- or a node of its class of      *)
+(* equivalence has such a cause.  Marks are only ever added, so the facts at dump time imply the facts when the rule was applied.    *)
+SupCause(ev, m) ==
+  \/ ev.nodes[m].lsup
+  \/ /\ \E c \in Children(ev, m) : ev.nodes[c].hasChanges
+     /\ \A c \in Children(ev, m) : ev.nodes[c].hasChanges => ev.nodes[c].sup
+  \/ (ev.nodes[m].kindname = "typedef_diff" /\ \E c \in Children(ev, m) : ev.nodes[c].hasChanges /\ ev.nodes[c].sup)
+  \/ (ev.nodes[m].kindname = "function_decl_diff" /\ \E c \in Children(ev, m) : ev.nodes[c].lsup)
+SupUnexplained(ev) == {n \in Nodes(ev) : ev.nodes[n].sup /\ ~\E m \in SameClass(ev, n) : SupCause(ev, m)}
+(* frame (C22 at tree level): no node matched by a specification => no node marked *)
+FrameBroken(ev) == (\A n \in Nodes(ev) : ~ev.nodes[n].lsup) /\ (\E n \in Nodes(ev) : ev.nodes[n].sup)
+
 Changed(ev, kind) == {r \in Roots(ev) : ev.nodes[r].kind = kind /\ ev.nodes[r].hasChanges}
 FilteredRoots(ev, kind) == {r \in Changed(ev, kind) : ev.nodes[r].filtered}
 NetChanged(ev, kind) == Cardinality(Changed(ev, kind)) - Cardinality(FilteredRoots(ev, kind))
@@ -40,11 +54,42 @@ Incompatible(ev) == ev.netRemoved > 0 \/ (VirtOff(ev) # {} /\ NetChanged(ev, "fn
 HasNet(ev) == ev.netRemoved > 0 \/ ev.netAdded > 0 \/ NetChanged(ev, "fn") > 0 \/ NetChanged(ev, "var") > 0 \/ ev.sonameOrArch
 Bit(x, b) == (x \div b) % 2 = 1
 
+(* ---- leaf mode (--leaf-changes-only): DiffTree!LeafIface / NetLeafIface / HasNetLeaf ------------------------------------------- *)
+(* The leaf reporter counts, per kind, the changed interfaces that carry a *local* change, and among them those not to be reported. *)
+LeafIface(ev, kind) == {r \in Changed(ev, kind) : ev.nodes[r].hasLocal}
+LeafIfaceFiltered(ev, kind) == {r \in LeafIface(ev, kind) : ev.nodes[r].filtered}
+NetLeafIface(ev, kind) == Cardinality(LeafIface(ev, kind)) - Cardinality(LeafIfaceFiltered(ev, kind))
+(* leaf types: the marker accepts nodes below an interface that carry a local change and are not of an indirection kind; further     *)
+(* exclusions (name-only changes, anonymous aggregates, declaration-only classes) are not in the dump, so the count printed by the    *)
+(* tool is bounded from above by the number of candidate classes of equivalence, and is an input of the verdict below.              *)
+NonLeafKinds == {"pointer_diff", "reference_diff", "qualified_type_diff", "typedef_diff", "array_diff", "fn_parm_diff", "distinct_diff"}
+LeafCandidates(ev) == {n \in Nodes(ev) \ Roots(ev) : ev.nodes[n].hasLocal /\ ev.nodes[n].kindname \notin NonLeafKinds}
+ClassKey(ev, n) == IF ev.nodes[n].cls = 0 THEN <<"n", n>> ELSE <<"c", ev.nodes[n].cls>>
+LeafCandidateClasses(ev) == {ClassKey(ev, n) : n \in LeafCandidates(ev)}
+HasNetLeaf(ev) == ev.netRemoved > 0 \/ ev.netAdded > 0 \/ ev.leafTypes > 0 \/ NetLeafIface(ev, "fn") > 0 \/ NetLeafIface(ev, "var") > 0 \/ ev.sonameOrArch
+LeafVerdict(ev) ==
+  IF ev.sumChangedFns # NetLeafIface(ev, "fn") \/ ev.sumFilteredFns # Cardinality(LeafIfaceFiltered(ev, "fn")) THEN "bad:leaf-function-summary-disagrees-with-tree"
+  ELSE IF ev.sumChangedVars # NetLeafIface(ev, "var") \/ ev.sumFilteredVars # Cardinality(LeafIfaceFiltered(ev, "var")) THEN "bad:leaf-variable-summary-disagrees-with-tree"
+  ELSE IF ev.leafTypes + ev.leafTypesF > Cardinality(LeafCandidateClasses(ev)) THEN "bad:more-leaf-types-than-local-changes-in-tree"
+  ELSE IF Bit(ev.exit, 4) # HasNetLeaf(ev) THEN "bad:leaf-change-bit-disagrees-with-tree"
+  ELSE IF Bit(ev.exit, 8) # Incompatible(ev) THEN "bad:incompatible-bit-disagrees-with-tree"
+  ELSE "ok"
+
+(* DiffTree!WellFormed, third conjunct: a local change of a pointer / reference / array node (one the leaf marker never records) is   *)
+(* also a local change of the node that uses it -- equals() decides both with types_have_similar_structure -- otherwise the change   *)
+(* is recorded nowhere in leaf mode.                                                                                                 *)
+IndirKinds == {"pointer_diff", "reference_diff", "array_diff"}
+IndirOrphans(ev) == {n \in Nodes(ev) \ Roots(ev) : ev.nodes[n].hasLocal /\ ev.nodes[n].kindname \in IndirKinds /\ ~ev.nodes[ev.nodes[n].parent].hasLocal}
+
 Verdict(ev) ==
   IF ev.ret # "ok" THEN "bad:crash"
+  ELSE IF IndirOrphans(ev) # {} THEN "bad:local-change-of-indirection-not-local-to-its-user"
   ELSE IF \E n \in Nodes(ev) : ~(LCat(ev, n) \subseteq OCat(ev, n)) THEN "bad:local-category-not-in-category"
   ELSE IF \E n \in Nodes(ev) : ~(OCat(ev, n) \subseteq CatOf(ev, n)) THEN "bad:category-not-from-self-or-children"
+  ELSE IF FrameBroken(ev) THEN "bad:suppressed-mark-although-nothing-matched"
+  ELSE IF SupUnexplained(ev) # {} THEN "bad:suppressed-mark-without-cause"
   ELSE IF \E n \in Nodes(ev) : ev.nodes[n].hasChanges /\ (ev.nodes[n].filtered # FilteredRule(ev, n)) THEN "bad:is-filtered-out-disagrees-with-rule"
+  ELSE IF ev.leaf THEN LeafVerdict(ev)
   ELSE IF ev.sumChangedFns # NetChanged(ev, "fn") \/ ev.sumFilteredFns # Cardinality(FilteredRoots(ev, "fn")) THEN "bad:function-summary-disagrees-with-tree"
   ELSE IF ev.sumChangedVars # NetChanged(ev, "var") \/ ev.sumFilteredVars # Cardinality(FilteredRoots(ev, "var")) THEN "bad:variable-summary-disagrees-with-tree"
   ELSE IF Bit(ev.exit, 4) # HasNet(ev) THEN "bad:change-bit-disagrees-with-tree"
